@@ -8,6 +8,7 @@
 From Ais Require Import Model.Base Model.Enums Model.Fields Model.Messages Model.Unarmor Model.Sentence
   Spec.Layouts Proofs.Bits Proofs.Reads Proofs.Layouts Proofs.Dispatch Proofs.MsgLevel Proofs.Interrogation Model.NomBits Proofs.NomBitsProof.
 From Ais Require Import Spec.Grammar Spec.Armor Proofs.EndToEnd Proofs.UnarmorProof.
+From Ais Require Import Proofs.Encode Proofs.RoundTrip.
 From Coq Require Import Lia.
 Local Open Scope N_scope.
 
@@ -218,3 +219,289 @@ Example C04_nonvacuous :
   let bs := bits_of_bytes [16; 0; 223; 249; 152; 126; 22; 236; 87; 64; 29; 205; 230; 40; 85; 160; 70; 79; 0; 35; 12; 49]%N in
   sl bs 0 6 = 4 /\ (168 <= length bs)%nat.
 Proof. vm_compute. split; [reflexivity|]. repeat constructor. Qed.
+
+(* BEGIN generated round trips *)
+(* ---------- round trips from field values (generated by tools/gen_roundtrip.py; proofs in Proofs/RoundTrip.v) ----------
+   [enc] writes the fields, each as its w-bit big-endian code, one after the other; [in_range] says that
+   every value fits its width; [post] is whatever follows (padding, further bits).  The decoded message
+   reports the transmitted values themselves: every integer, flag and identifier field is the variable
+   that was encoded, whatever the other variables are. *)
+Theorem C04_roundtrip_type1 :
+  forall c q vrepeat vmmsi vstatus vturn vspeed vaccuracy vlon vlat vcourse vheading vsecond vmaneuver xspare vraim vsync vcomm post,
+  in_range (fields1 vrepeat vmmsi vstatus vturn vspeed vaccuracy vlon vlat vcourse vheading vsecond vmaneuver xspare vraim vsync vcomm) ->
+  let bs := enc (fields1 vrepeat vmmsi vstatus vturn vspeed vaccuracy vlon vlat vcourse vheading vsecond vmaneuver xspare vraim vsync vcomm) ++ post in
+  parse_bits c q bs = Ok (PositionReport
+  ({| pr_message_type := 1; pr_repeat_indicator := vrepeat; pr_mmsi := vmmsi;
+     pr_navigation_status := nav_status_parse (vstatus);
+     pr_rate_of_turn := rate_of_turn_parse (vturn);
+     pr_speed_over_ground := parse_speed_over_ground (vspeed);
+     pr_position_accuracy := (if vaccuracy =? 1 then Dgps else Unaugmented);
+     pr_longitude := parse_longitude (sext 28 (vlon));
+     pr_latitude := parse_latitude (sext 27 (vlat));
+     pr_course_over_ground := parse_cog (vcourse);
+     pr_true_heading := parse_heading (vheading);
+     pr_timestamp := vsecond;
+     pr_maneuver_indicator := maneuver_parse (vmaneuver);
+     pr_raim := (vraim =? 1);
+     pr_radio_status := if 1 =? 3 then itdma_at bs 149 else sotdma_at bs 149 |})).
+Proof. exact roundtrip_type1. Qed.
+Print Assumptions C04_roundtrip_type1.
+
+Theorem C04_roundtrip_type2 :
+  forall c q vrepeat vmmsi vstatus vturn vspeed vaccuracy vlon vlat vcourse vheading vsecond vmaneuver xspare vraim vsync vcomm post,
+  in_range (fields2 vrepeat vmmsi vstatus vturn vspeed vaccuracy vlon vlat vcourse vheading vsecond vmaneuver xspare vraim vsync vcomm) ->
+  let bs := enc (fields2 vrepeat vmmsi vstatus vturn vspeed vaccuracy vlon vlat vcourse vheading vsecond vmaneuver xspare vraim vsync vcomm) ++ post in
+  parse_bits c q bs = Ok (PositionReport
+  ({| pr_message_type := 2; pr_repeat_indicator := vrepeat; pr_mmsi := vmmsi;
+     pr_navigation_status := nav_status_parse (vstatus);
+     pr_rate_of_turn := rate_of_turn_parse (vturn);
+     pr_speed_over_ground := parse_speed_over_ground (vspeed);
+     pr_position_accuracy := (if vaccuracy =? 1 then Dgps else Unaugmented);
+     pr_longitude := parse_longitude (sext 28 (vlon));
+     pr_latitude := parse_latitude (sext 27 (vlat));
+     pr_course_over_ground := parse_cog (vcourse);
+     pr_true_heading := parse_heading (vheading);
+     pr_timestamp := vsecond;
+     pr_maneuver_indicator := maneuver_parse (vmaneuver);
+     pr_raim := (vraim =? 1);
+     pr_radio_status := if 2 =? 3 then itdma_at bs 149 else sotdma_at bs 149 |})).
+Proof. exact roundtrip_type2. Qed.
+Print Assumptions C04_roundtrip_type2.
+
+Theorem C04_roundtrip_type3 :
+  forall c q vrepeat vmmsi vstatus vturn vspeed vaccuracy vlon vlat vcourse vheading vsecond vmaneuver xspare vraim vsync vcomm post,
+  in_range (fields3 vrepeat vmmsi vstatus vturn vspeed vaccuracy vlon vlat vcourse vheading vsecond vmaneuver xspare vraim vsync vcomm) ->
+  let bs := enc (fields3 vrepeat vmmsi vstatus vturn vspeed vaccuracy vlon vlat vcourse vheading vsecond vmaneuver xspare vraim vsync vcomm) ++ post in
+  parse_bits c q bs = Ok (PositionReport
+  ({| pr_message_type := 3; pr_repeat_indicator := vrepeat; pr_mmsi := vmmsi;
+     pr_navigation_status := nav_status_parse (vstatus);
+     pr_rate_of_turn := rate_of_turn_parse (vturn);
+     pr_speed_over_ground := parse_speed_over_ground (vspeed);
+     pr_position_accuracy := (if vaccuracy =? 1 then Dgps else Unaugmented);
+     pr_longitude := parse_longitude (sext 28 (vlon));
+     pr_latitude := parse_latitude (sext 27 (vlat));
+     pr_course_over_ground := parse_cog (vcourse);
+     pr_true_heading := parse_heading (vheading);
+     pr_timestamp := vsecond;
+     pr_maneuver_indicator := maneuver_parse (vmaneuver);
+     pr_raim := (vraim =? 1);
+     pr_radio_status := if 3 =? 3 then itdma_at bs 149 else sotdma_at bs 149 |})).
+Proof. exact roundtrip_type3. Qed.
+Print Assumptions C04_roundtrip_type3.
+
+Theorem C04_roundtrip_type4 :
+  forall c q vrepeat vmmsi vyear vmonth vday vhour vminute vsecond vaccuracy vlon vlat vepfd xspare vraim vsync vcomm post,
+  in_range (fields4 vrepeat vmmsi vyear vmonth vday vhour vminute vsecond vaccuracy vlon vlat vepfd xspare vraim vsync vcomm) ->
+  let bs := enc (fields4 vrepeat vmmsi vyear vmonth vday vhour vminute vsecond vaccuracy vlon vlat vepfd xspare vraim vsync vcomm) ++ post in
+  parse_bits c q bs = Ok (BaseStationReport
+  ({| bs_message_type := 4; bs_repeat_indicator := vrepeat; bs_mmsi := vmmsi;
+     bs_year := opt_nz (vyear); bs_month := opt_nz (vmonth); bs_day := opt_nz (vday);
+     bs_hour := vhour; bs_minute := minsec_conv (vminute); bs_second := minsec_conv (vsecond);
+     bs_fix_quality := (if vaccuracy =? 1 then Dgps else Unaugmented);
+     bs_longitude := parse_longitude (sext 28 (vlon));
+     bs_latitude := parse_latitude (sext 27 (vlat));
+     bs_epfd_type := epfd_type_parse (vepfd);
+     bs_raim := (vraim =? 1);
+     bs_radio_status := sotdma_at bs 149 |})).
+Proof. exact roundtrip_type4. Qed.
+Print Assumptions C04_roundtrip_type4.
+
+Theorem C04_roundtrip_type11 :
+  forall c q vrepeat vmmsi vyear vmonth vday vhour vminute vsecond vaccuracy vlon vlat vepfd xspare vraim vsync vcomm post,
+  in_range (fields11 vrepeat vmmsi vyear vmonth vday vhour vminute vsecond vaccuracy vlon vlat vepfd xspare vraim vsync vcomm) ->
+  let bs := enc (fields11 vrepeat vmmsi vyear vmonth vday vhour vminute vsecond vaccuracy vlon vlat vepfd xspare vraim vsync vcomm) ++ post in
+  parse_bits c q bs = Ok (UtcDateResponse
+  ({| bs_message_type := 11; bs_repeat_indicator := vrepeat; bs_mmsi := vmmsi;
+     bs_year := opt_nz (vyear); bs_month := opt_nz (vmonth); bs_day := opt_nz (vday);
+     bs_hour := vhour; bs_minute := minsec_conv (vminute); bs_second := minsec_conv (vsecond);
+     bs_fix_quality := (if vaccuracy =? 1 then Dgps else Unaugmented);
+     bs_longitude := parse_longitude (sext 28 (vlon));
+     bs_latitude := parse_latitude (sext 27 (vlat));
+     bs_epfd_type := epfd_type_parse (vepfd);
+     bs_raim := (vraim =? 1);
+     bs_radio_status := sotdma_at bs 149 |})).
+Proof. exact roundtrip_type11. Qed.
+Print Assumptions C04_roundtrip_type11.
+
+Theorem C04_roundtrip_type5 :
+  forall c q vrepeat vmmsi vversion vimo vcallsign vname vshiptype vbow vstern vport vstarboard vepfd vmonth vday vhour vminute vdraught vdestination vdte xspare post,
+  in_range (fields5 vrepeat vmmsi vversion vimo vcallsign vname vshiptype vbow vstern vport vstarboard vepfd vmonth vday vhour vminute vdraught vdestination vdte xspare) ->
+  let bs := enc (fields5 vrepeat vmmsi vversion vimo vcallsign vname vshiptype vbow vstern vport vstarboard vepfd vmonth vday vhour vminute vdraught vdestination vdte xspare) ++ post in
+  parse_bits c q bs = Ok (StaticAndVoyageRelatedData
+  (let rem := (length bs - 302)%nat in
+  let dest_chars := (Nat.min 120 rem / 6)%nat in
+  let after := (302 + 6 * dest_chars)%nat in
+  {| sv_message_type := 5; sv_repeat_indicator := vrepeat; sv_mmsi := vmmsi;
+     sv_ais_version := vversion; sv_imo_number := vimo;
+     sv_callsign := text_at bs 70 7; sv_vessel_name := text_at bs 112 20;
+     sv_ship_type := ship_type_parse (vshiptype);
+     sv_dimension_to_bow := vbow; sv_dimension_to_stern := vstern;
+     sv_dimension_to_port := vport; sv_dimension_to_starboard := vstarboard;
+     sv_epfd_type := epfd_type_parse (vepfd);
+     sv_eta_month_utc := opt_nz (vmonth); sv_eta_day_utc := opt_nz (vday);
+     sv_eta_hour_utc := vhour; sv_eta_minute_utc := minsec_conv (vminute);
+     sv_draught := FDiv (FOfInt (Z.of_N (vdraught))) 10;
+     sv_destination := text_at bs 302 dest_chars;
+     sv_dte := if (after <? length bs)%nat then dte_at bs after else DteNotReady |})).
+Proof. exact roundtrip_type5. Qed.
+Print Assumptions C04_roundtrip_type5.
+
+Theorem C04_roundtrip_type6 :
+  forall c q vrepeat vmmsi vseqno vdest vretransmit xspare vdac vfid post,
+  in_range (fields6 vrepeat vmmsi vseqno vdest vretransmit xspare vdac vfid) ->
+  noalloc c = false ->
+  let bs := enc (fields6 vrepeat vmmsi vseqno vdest vretransmit xspare vdac vfid) ++ post in
+  parse_bits c q bs = Ok (BinaryAddressedMessage
+  ({| ba_message_type := 6; ba_repeat_indicator := vrepeat; ba_mmsi := vmmsi;
+     ba_seqno := vseqno; ba_dest_mmsi := vdest; ba_retransmit := (vretransmit =? 1);
+     ba_dac := vdac; ba_fid := vfid;
+     ba_data := bytes_of_bits (skipn 88 bs) |})).
+Proof. exact roundtrip_type6. Qed.
+Print Assumptions C04_roundtrip_type6.
+
+Theorem C04_roundtrip_type8 :
+  forall c q vrepeat vmmsi xspare vdac vfid post,
+  in_range (fields8 vrepeat vmmsi xspare vdac vfid) ->
+  noalloc c = false ->
+  let bs := enc (fields8 vrepeat vmmsi xspare vdac vfid) ++ post in
+  parse_bits c q bs = Ok (BinaryBroadcastMessage
+  ({| bb_message_type := 8; bb_repeat_indicator := vrepeat; bb_mmsi := vmmsi;
+     bb_dac := vdac; bb_fid := vfid;
+     bb_data := bytes_of_bits (skipn 56 bs) |})).
+Proof. exact roundtrip_type8. Qed.
+Print Assumptions C04_roundtrip_type8.
+
+Theorem C04_roundtrip_type10 :
+  forall c q vrepeat vmmsi xspare vdest xspare2 post,
+  in_range (fields10 vrepeat vmmsi xspare vdest xspare2) ->
+  let bs := enc (fields10 vrepeat vmmsi xspare vdest xspare2) ++ post in
+  parse_bits c q bs = Ok (UtcDateInquiry
+  ({| ui_message_type := 10; ui_repeat_indicator := vrepeat; ui_mmsi := vmmsi;
+     ui_dest_mmsi := vdest |})).
+Proof. exact roundtrip_type10. Qed.
+Print Assumptions C04_roundtrip_type10.
+
+Theorem C04_roundtrip_type16 :
+  forall c q vrepeat vmmsi xspare vmmsi1 voffset1 vincrement1 vmmsi2 voffset2 vincrement2 post,
+  in_range (fields16 vrepeat vmmsi xspare vmmsi1 voffset1 vincrement1 vmmsi2 voffset2 vincrement2) ->
+  let bs := enc (fields16 vrepeat vmmsi xspare vmmsi1 voffset1 vincrement1 vmmsi2 voffset2 vincrement2) ++ post in
+  parse_bits c q bs = Ok (AssignmentModeCommand
+  (let two := (144 <=? length bs)%nat in
+  {| ac_message_type := 16; ac_repeat_indicator := vrepeat; ac_mmsi := vmmsi;
+     ac_mmsi1 := vmmsi1; ac_offset1 := voffset1; ac_increment1 := vincrement1;
+     ac_mmsi2 := if two then Some (vmmsi2) else None;
+     ac_offset2 := if two then Some (voffset2) else None;
+     ac_increment2 := if two then Some (vincrement2) else None |})).
+Proof. exact roundtrip_type16. Qed.
+Print Assumptions C04_roundtrip_type16.
+
+Theorem C04_roundtrip_type17 :
+  forall c q vrepeat vmmsi xspare vlon vlat xspare2 vdtype vstation vzcount vseq vn vhealth post,
+  in_range (fields17 vrepeat vmmsi xspare vlon vlat xspare2 vdtype vstation vzcount vseq vn vhealth) ->
+  noalloc c = false ->
+  let bs := enc (fields17 vrepeat vmmsi xspare vlon vlat xspare2 vdtype vstation vzcount vseq vn vhealth) ++ post in
+  parse_bits c q bs = Ok (DgnssBroadcastBinaryMessage
+  ({| dg_message_type := 17; dg_repeat_indicator := vrepeat; dg_mmsi := vmmsi;
+     dg_longitude := parse_longitude_min_10 (sext 18 (vlon));
+     dg_latitude := parse_latitude_min_10 (sext 17 (vlat));
+     dg_payload :=
+       {| cd_message_type := vdtype; cd_station_id := vstation; cd_z_count := vzcount;
+          cd_sequence_number := vseq; cd_n := vn; cd_health := vhealth;
+          cd_data := bytes_of_bits (skipn 120 bs) |} |})).
+Proof. exact roundtrip_type17. Qed.
+Print Assumptions C04_roundtrip_type17.
+
+Theorem C04_roundtrip_type18 :
+  forall c q vrepeat vmmsi xreserved vspeed vaccuracy vlon vlat vcourse vheading vsecond xreserved2 vcs vdisplay vdsc vband vmsg22 vassigned vraim vselector vsync vcomm post,
+  in_range (fields18 vrepeat vmmsi xreserved vspeed vaccuracy vlon vlat vcourse vheading vsecond xreserved2 vcs vdisplay vdsc vband vmsg22 vassigned vraim vselector vsync vcomm) ->
+  let bs := enc (fields18 vrepeat vmmsi xreserved vspeed vaccuracy vlon vlat vcourse vheading vsecond xreserved2 vcs vdisplay vdsc vband vmsg22 vassigned vraim vselector vsync vcomm) ++ post in
+  parse_bits c q bs = Ok (StandardClassBPositionReport
+  ({| cb_message_type := 18; cb_repeat_indicator := vrepeat; cb_mmsi := vmmsi;
+     cb_speed_over_ground := parse_speed_over_ground (vspeed);
+     cb_position_accuracy := (if vaccuracy =? 1 then Dgps else Unaugmented);
+     cb_longitude := parse_longitude (sext 28 (vlon));
+     cb_latitude := parse_latitude (sext 27 (vlat));
+     cb_course_over_ground := parse_cog (vcourse);
+     cb_true_heading := parse_heading (vheading);
+     cb_timestamp := vsecond;
+     cb_cs_unit := (if vcs =? 1 then CsCarrierSense else CsSotdma);
+     cb_has_display := (vdisplay =? 1); cb_has_dsc := (vdsc =? 1); cb_whole_band := (vband =? 1);
+     cb_accepts_message_22 := (vmsg22 =? 1);
+     cb_assigned_mode := (if vassigned =? 1 then Assigned else Autonomous);
+     cb_raim := (vraim =? 1);
+     cb_radio_status := if (vselector =? 1) then itdma_at bs 149 else sotdma_at bs 149 |})).
+Proof. exact roundtrip_type18. Qed.
+Print Assumptions C04_roundtrip_type18.
+
+Theorem C04_roundtrip_type19 :
+  forall c q vrepeat vmmsi xreserved vspeed vaccuracy vlon vlat vcourse vheading vsecond xreserved2 vname vshiptype vbow vstern vport vstarboard vepfd vraim vdte vassigned xspare post,
+  in_range (fields19 vrepeat vmmsi xreserved vspeed vaccuracy vlon vlat vcourse vheading vsecond xreserved2 vname vshiptype vbow vstern vport vstarboard vepfd vraim vdte vassigned xspare) ->
+  let bs := enc (fields19 vrepeat vmmsi xreserved vspeed vaccuracy vlon vlat vcourse vheading vsecond xreserved2 vname vshiptype vbow vstern vport vstarboard vepfd vraim vdte vassigned xspare) ++ post in
+  parse_bits c q bs = Ok (ExtendedClassBPositionReport
+  ({| eb_message_type := 19; eb_repeat_indicator := vrepeat; eb_mmsi := vmmsi;
+     eb_speed_over_ground := parse_speed_over_ground (vspeed);
+     eb_position_accuracy := (if vaccuracy =? 1 then Dgps else Unaugmented);
+     eb_longitude := parse_longitude (sext 28 (vlon));
+     eb_latitude := parse_latitude (sext 27 (vlat));
+     eb_course_over_ground := parse_cog (vcourse);
+     eb_true_heading := parse_heading (vheading);
+     eb_timestamp := vsecond;
+     eb_name := text_at bs 143 20;
+     eb_type_of_ship_and_cargo := ship_type_parse (vshiptype);
+     eb_dimension_to_bow := vbow; eb_dimension_to_stern := vstern;
+     eb_dimension_to_port := vport; eb_dimension_to_starboard := vstarboard;
+     eb_epfd_type := epfd_type_parse (vepfd);
+     eb_raim := (vraim =? 1);
+     eb_dte := (if vdte =? 1 then DteNotReady else DteReady);
+     eb_assigned_mode := (if vassigned =? 1 then Assigned else Autonomous) |})).
+Proof. exact roundtrip_type19. Qed.
+Print Assumptions C04_roundtrip_type19.
+
+Theorem C04_roundtrip_type21 :
+  forall c q vrepeat vmmsi vaidtype vname vaccuracy vlon vlat vbow vstern vport vstarboard vepfd vsecond voffposition vregional vraim vvirtual vassigned xspare post,
+  in_range (fields21 vrepeat vmmsi vaidtype vname vaccuracy vlon vlat vbow vstern vport vstarboard vepfd vsecond voffposition vregional vraim vvirtual vassigned xspare) ->
+  let bs := enc (fields21 vrepeat vmmsi vaidtype vname vaccuracy vlon vlat vbow vstern vport vstarboard vepfd vsecond voffposition vregional vraim vvirtual vassigned xspare) ++ post in
+  parse_bits c q bs = Ok (AidToNavigationReport
+  ({| an_message_type := 21; an_repeat_indicator := vrepeat; an_mmsi := vmmsi;
+     an_aid_type := navaid_type_parse (vaidtype);
+     an_name := text_at bs 43 20;
+     an_accuracy := (if vaccuracy =? 1 then Dgps else Unaugmented);
+     an_longitude := parse_longitude (sext 28 (vlon));
+     an_latitude := parse_latitude (sext 27 (vlat));
+     an_dimension_to_bow := vbow; an_dimension_to_stern := vstern;
+     an_dimension_to_port := vport; an_dimension_to_starboard := vstarboard;
+     an_epfd_type := epfd_type_parse (vepfd);
+     an_utc_second := vsecond;
+     an_off_position := (voffposition =? 1);
+     an_regional_reserved := vregional;
+     an_raim := (vraim =? 1); an_virtual_aid := (vvirtual =? 1); an_assigned_mode := (vassigned =? 1) |})).
+Proof. exact roundtrip_type21. Qed.
+Print Assumptions C04_roundtrip_type21.
+
+Theorem C04_roundtrip_type27 :
+  forall c q vrepeat vmmsi vaccuracy vraim vstatus vlon vlat vspeed vcourse vgnss xspare post,
+  in_range (fields27 vrepeat vmmsi vaccuracy vraim vstatus vlon vlat vspeed vcourse vgnss xspare) ->
+  let bs := enc (fields27 vrepeat vmmsi vaccuracy vraim vstatus vlon vlat vspeed vcourse vgnss xspare) ++ post in
+  parse_bits c q bs = Ok (LongRangeAisBroadcastMessage
+  ({| lr_message_type := 27; lr_repeat_indicator := vrepeat; lr_mmsi := vmmsi;
+     lr_position_accuracy := (if vaccuracy =? 1 then Dgps else Unaugmented);
+     lr_raim := (vraim =? 1);
+     lr_navigation_status := nav_status_parse (vstatus);
+     lr_longitude := lr_longitude_conv (27) (sext 18 (vlon));
+     lr_latitude := lr_latitude_conv (27) (sext 17 (vlat));
+     lr_speed_over_ground := parse_speed_over_ground_62 (vspeed);
+     lr_course_over_ground := parse_cog_511 (vcourse);
+     lr_gnss_position_status := (vgnss =? 1) |})).
+Proof. exact roundtrip_type27. Qed.
+Print Assumptions C04_roundtrip_type27.
+(* END generated round trips *)
+
+(* non-vacuity of the round trips: a concrete assignment is in range, and the encoded payload is the
+   one of the repository's own type 18 test vector up to its first 38 bits *)
+Example C04_roundtrip_nonvacuous :
+  in_range (fields18 0 423302100 15 14 1 53010996 19394016 1772 511 20 0 1 1 1 1 0 0 1 1 3 100) /\
+  match parse_bits Std quirks_asis (enc (fields18 0 423302100 15 14 1 53010996 19394016 1772 511 20 0 1 1 1 1 0 0 1 1 3 100)) with
+  | Ok (StandardClassBPositionReport r) => cb_mmsi r = 423302100 /\ cb_timestamp r = 20 /\ cb_has_dsc r = true
+  | _ => False
+  end.
+Proof. split; [repeat constructor|vm_compute; repeat split; reflexivity]. Qed.
